@@ -120,7 +120,7 @@ def _exec(sim, op):
         sim.socket_event(bool(op.get("ready", True)))
     elif o == "reloadcfg":
         # the configuration file is rewritten, then the real `reloadconfig` request
-        sim.write_file(op["watchers"])
+        sim.write_file(op["watchers"], check_delay=op.get("file_check_delay"))
         sim.request("reloadconfig", {"waiting": bool(op.get("waiting", False))})
         if op.get("drain", True):
             sim.drain()
